@@ -969,12 +969,16 @@ class HSM2Dongle:
         response = self.RESPONSE.ADVANCE
 
         # Sort each group of brothers by block hash
-        brothers = list(map(lambda brolist:
-                            sorted(brolist,
-                                   key=lambda bh: bytes.fromhex(get_block_hash(bh))
-                                   ),
-                            brothers)
-                        )
+        try:
+            brothers = list(map(lambda brolist:
+                                sorted(brolist,
+                                       key=lambda bh: bytes.fromhex(get_block_hash(bh))
+                                       ),
+                                brothers)
+                            )
+        except ValueError as e:
+            self.logger.error("While computing brothers' hashes: %s", str(e))
+            return (False, response.ERROR_INVALID_BROTHERS)
 
         return self._do_block_operation(
             "advance",
@@ -1362,7 +1366,7 @@ class HSM2Dongle:
 
             # How many bytes to send as the first block chunk
             bytes_requested = response[self.OFF.DATA]
-        except ValueError as e:
+        except (ValueError, OverflowError) as e:
             self.logger.error("Computing %s metadata: %s", header_name, str(e))
             return (False, responses.ERROR_COMPUTE_METADATA)
         except HSM2DongleErrorResult as e:
